@@ -270,6 +270,14 @@ class VLoop(asyncio.BaseEventLoop):
         addr = self.resolver.get(host, host)
         if addr is None:
             raise _socket.gaierror(_socket.EAI_NONAME, 'Name or service not known')
+        if isinstance(addr, (list, tuple)):
+            # a name with several addresses (dual-stack / round-robin): one entry each, in order
+            out = []
+            for a in addr:
+                fam = _socket.AF_INET6 if ':' in a else _socket.AF_INET
+                sa = (a, port) if fam == _socket.AF_INET else (a, port, 0, 0)
+                out.append((fam, _socket.SOCK_STREAM, 6, '', sa))
+            return out
         if not host:
             addr = '0.0.0.0'
         fam = _socket.AF_INET6 if ':' in addr else _socket.AF_INET
